@@ -468,6 +468,110 @@ def leg_observer_sweep(flavour, tier, jobs=8):
             "distinct_nontrivial": len(states), "samples": samples, "observer_points": points}
 
 
+def interference_cases():
+    """(victim, interferers): pairs of MUTATING operations on one warm cache."""
+    k, k2, other = b"vk", b"vk2", b"other"
+    V, V2, old = b"victim value " * 5, b"the interferer's value", b"the value before"
+    sV, sOld = sri_tok("sha256", V), sri_tok("sha256", old)
+    warm = [w_oneshot("s", "sha256", other, b"other value"), w_oneshot("s", "sha256", k, old)]
+    obs = [f"metadata s c0 {hx(k)}", f"read s c0 {hx(k)}", f"read a c0 {hx(k)}", f"metadata a c0 {hx(k2)}", f"read s c0 {hx(k2)}",
+           f"read_hash s c0 {sV}", f"exists a c0 {sV}", f"read_hash a c0 {sOld}", "list c0", f"read s c0 {hx(other)}", "dump c0/tmp"]
+    cases = []
+    for vf in "sa":
+        i_f = "a" if vf == "s" else "s"
+        cases += [
+            {"name": f"write/{vf}", "setup": warm, "victim": w_oneshot(vf, "sha256", k, V),
+             "interferers": [f"remove_hash {i_f} c0 {sV}", f"remove {i_f} c0 {hx(k)}", w_oneshot(i_f, "sha256", k, V2),
+                             w_oneshot(i_f, "sha256", k2, V), f"write_hash {i_f} c0 sha256 {hx(V)}"], "observers": obs},
+            {"name": f"write-hash/{vf}", "setup": warm, "victim": f"write_hash {vf} c0 sha256 {hx(V)}",
+             "interferers": [f"remove_hash {i_f} c0 {sV}", w_oneshot(i_f, "sha256", k2, V), f"write_hash {i_f} c0 sha256 {hx(V)}"], "observers": obs},
+            {"name": f"remove/{vf}", "setup": warm, "victim": f"remove {vf} c0 {hx(k)}",
+             "interferers": [w_oneshot(i_f, "sha256", k, V2), f"remove {i_f} c0 {hx(k)}", f"remove_hash {i_f} c0 {sOld}"], "observers": obs},
+            {"name": f"remove-hash/{vf}", "setup": warm, "victim": f"remove_hash {vf} c0 {sOld}",
+             "interferers": [w_oneshot(i_f, "sha256", k2, old), f"write_hash {i_f} c0 sha256 {hx(old)}", f"remove_hash {i_f} c0 {sOld}"], "observers": obs},
+        ]
+    return cases
+
+
+def leg_pause_interfere(flavour, tier, jobs=8):
+    """Two MUTATING operations of two processes, interleaved at system-call granularity: the victim is STOPPED (an
+    injected SIGSTOP: the whole process, between two of its system calls) after its N-th call of every mutating
+    class, the interferer - a write, a removal, a removal by address, on the same key / the same content - runs to
+    completion in another process, the victim is continued.  (victim's answer, interferer's answer, what lookups /
+    reads / the listing answer afterwards) must be what "victim, then interferer" or "interferer, then victim" give
+    (times masked).  A check-then-act on the content area or the index shows here as an answer no order produces."""
+    failures, samples = [], []
+    points, states = 0, set()
+    W = {"DRIVE_WORKER": "1"}
+
+    def norm_obs(line):
+        return _OBS_TIME.sub("time=T", re.sub(r" @now=\d+", "", E.norm(line)))
+
+    def sweep(case):
+        out = []
+        tmpl = os.path.join(C.scratch_root(), f"pi-tmpl{next(E._counter)}")
+        T.run_traced(flavour, case["setup"], scratch=tmpl)
+
+        def fresh():
+            d = os.path.join(C.scratch_root(), f"pi{next(E._counter)}")
+            shutil.rmtree(d, ignore_errors=True)
+            copy_tree(tmpl, d)
+            return d
+        sc = fresh()
+        base = T.run_traced(flavour, [case["victim"]], scratch=sc, reuse=True, env_extra=W)
+        shutil.rmtree(sc, ignore_errors=True)
+        pts = kill_points(base)
+        if tier == "quick" and len(pts) > 10:
+            pts = pts[::max(1, len(pts) // 10)]
+        for itf in case["interferers"]:
+            serial = []
+            for order in ([case["victim"], itf], [itf, case["victim"]]):
+                sc = fresh()
+                o = E.run_impl(flavour, "\n".join(order + case["observers"]) + "\n", scratch=sc, reuse=True)[0]
+                shutil.rmtree(sc, ignore_errors=True)
+                v, i_ = (o[0], o[1]) if order[0] == case["victim"] else (o[1], o[0])
+                serial.append(tuple(norm_obs(x) for x in [v, i_] + o[2:]))
+            for n in pts:
+                scratch = fresh()
+                got_i = []
+                def hook():
+                    got_i.extend(E.run_impl(flavour, itf + "\n", scratch=scratch, reuse=True)[0])
+                r = T.run_traced(flavour, [case["victim"]], scratch=scratch, reuse=True, env_extra=W, timeout=90,
+                                 inject=f"inject={n[0]}:signal=SIGSTOP:when={n[1]}", pause_hook=hook)
+                obs = E.run_impl(flavour, "\n".join(case["observers"]) + "\n", scratch=scratch, reuse=True)[0]
+                shutil.rmtree(scratch, ignore_errors=True)
+                out.append((itf, n, r, got_i, obs, serial))
+        shutil.rmtree(tmpl, ignore_errors=True)
+        return case, out
+    with ThreadPoolExecutor(max_workers=jobs) as ex:
+        allres = list(ex.map(sweep, interference_cases()))
+    for case, out in allres:
+        for itf, n, r, got_i, obs, serial in out:
+            if not r.paused or not got_i:
+                continue
+            points += 1
+            v = r.impl_lines[0] if r.impl_lines else "missing"
+            got = tuple(norm_obs(x) for x in [v, got_i[0]] + obs)
+            ok = got in serial
+            states.add((case["name"], itf.split(" ")[0], n[0], E.rclass(v), E.rclass(got_i[0]), ok))
+            if not ok:
+                # name the first component that fits neither order
+                names = ["the victim's answer", "the interferer's answer"] + [f"`{o[:40]}` afterwards" for o in case["observers"]]
+                bad = next((names[j] for j in range(min(len(got), len(names)))
+                            if all(j >= len(sr) or got[j] != sr[j] for sr in serial)), "the combination of the answers")
+                f = Failure("not_serializable", n, f"`{case['victim'][:36]}` ({case['name']}) stopped after its {n[0]} #{n[1]} while "
+                            f"`{itf[:36]}` ran: {bad} fits neither order - victim {E.rclass(v)[:30]}, interferer {E.rclass(got_i[0])[:30]}",
+                            sig={"victim": case["victim"].split(" ")[0], "interferer": itf.split(" ")[0], "paused": True,
+                                 "victim_answer": E.rclass(v), "interferer_answer": E.rclass(got_i[0])})
+                f.replay_text = ("\n".join(case["setup"] + [case["victim"]]) + f"\n# stopped with inject={n[0]}:signal=SIGSTOP:when={n[1]} "
+                                 f"(DRIVE_WORKER=1); meanwhile, in another process:\n{itf}\n# continued; then:\n" + "\n".join(case["observers"]) + "\n")
+                failures.append(f)
+            if len(samples) < 3:
+                samples.append({"victim": case["victim"][:50], "stopped_after": list(n), "interferer": itf[:50], "fits_an_order": ok})
+    return {"failures": failures, "disagreements": [], "evaluations": points, "distinct_nontrivial": len(states),
+            "samples": samples, "pause_points": points}
+
+
 # ---------------------------------------------------------------------------------------------
 # errno injection (C13)
 # ---------------------------------------------------------------------------------------------
